@@ -86,6 +86,24 @@ def cases(tier, rng):
         locs = [rng.choice([i for i in range(n) if regs[i] == k]) for k in kill] if by_idxs else []
         yield {"k": 2002, "args": [[nr], [nc], regs, [] if by_idxs else kill, [int(by_idxs)], locs, rng.choice([[3, 4, 5], [4, 3, 5]])],
                "call": {"kill": kill}, "group": "dissolve-" + ("idxs" if by_idxs else "labels")}
+    # nested dissolved regions: a core inside a ring, both dissolved in one call, between two surviving halves (round-5
+    # seed: the nearest cell searched on the rim of the union of the dissolved regions)
+    for t in range(60 if tier == "quick" else 600):
+        nr, nc = rng.randint(5, 8), rng.randint(6, 9)
+        split = rng.randint(1, nc - 1)
+        a1, a2, b, c = rng.sample(range(1, 12), 4)
+        regs = [(a1 if i % nc < split else a2) for i in range(nr * nc)]
+        h, w = rng.randint(3, nr - 1), rng.randint(3, nc - 1)
+        r0, c0 = rng.randint(0, nr - h), rng.randint(0, nc - w)
+        for r in range(r0, r0 + h):
+            for cc in range(c0, c0 + w):
+                regs[r * nc + cc] = b
+        rc, ccn = rng.randint(r0 + 1, r0 + h - 2), rng.randint(c0 + 1, c0 + w - 2)
+        regs[rc * nc + ccn] = c
+        if len(set(regs)) < 4:
+            continue
+        yield {"k": 2002, "args": [[nr], [nc], regs, [b, c], [0], [], rng.choice([[3, 4, 5], [4, 3, 5]])],
+               "call": {"kill": [b, c]}, "group": "dissolve-nested"}
     for t in range(60 if tier == "quick" else 600):
         yield {"k": 2000, "args": [[t]], "call": {"what": rng.choice(["geo", "geo", "dissolve"]), "seed": rng.randrange(10**9)}, "group": "float-and-dissolve"}
 
